@@ -326,3 +326,20 @@ func VerifGetOrCreate() {
 	}
 	symapi.Reach("end")
 }
+
+// VerifGetOrCreateUnrouted (C17 / C05): only the route that the table resolves for the
+// requested path is pulled: a path one segment below an exact route, or the directory
+// spelling of it, resolves to nothing and starts no pull.
+func VerifGetOrCreateUnrouted() {
+	f := &verifPullFactory{}
+	psFactories = []PullStreamFactory{f}
+	route.Save(&route.Route{Pattern: "/pull/a", URL: "fake://cam/a"})
+	route.Save(&route.Route{Pattern: "/dir/", URL: "fake://cam/d"})
+	req := []string{"/pull/a/x", "/pull/a/", "/pull", "/dir/", "/dir/s/", "/other"}[symapi.Choose("request", 6)]
+	symapi.Assert(route.Match(req) == nil, "no-route-for-this-request")
+	s := GetOrCreate(req)
+	symapi.Assert(s == nil && len(f.created) == 0, "unrouted-request-pulls-nothing")
+	sc, _ := Count()
+	symapi.Assert(sc == 0, "nothing-registered")
+	symapi.Reach("end")
+}
